@@ -493,6 +493,7 @@ type SpecFunc struct {
 	Pkg     string // package path of declaring contract file
 	Line    int
 	File    string
+	Reads   []string // heap keys an uninterpreted function depends on
 	Trigger bool // emit quantified definition with trigger instead of fuel unfolding
 	Valued  bool // uninterpreted function of the abstract VALUES of its string arguments (congruent w.r.t. string equality)
 	Inline  bool // expanded at every call site (bounded quantifiers with literal ranges are unrolled)
@@ -910,6 +911,17 @@ func parseSpecDecl(s string) (*SpecFunc, error) {
 		case strings.HasPrefix(s, "valued "):
 			sf.Valued = true
 			s = strings.TrimSpace(s[7:])
+			continue
+		case strings.HasPrefix(s, "reads("):
+			// an uninterpreted function that depends on the listed heaps
+			k := strings.Index(s, ")")
+			if k < 0 {
+				return nil, fmt.Errorf("spec: reads( without )")
+			}
+			for _, h := range strings.Split(s[6:k], ",") {
+				sf.Reads = append(sf.Reads, strings.TrimSpace(h))
+			}
+			s = strings.TrimSpace(s[k+1:])
 			continue
 		}
 		break
